@@ -270,6 +270,20 @@ theorem range_minus_version_exact_partial (r : VRange) (v : Version) (hr : r.WF)
       res.allowsPlain p = (r.allows p && !v.allows p) :=
   RC.rngDifferenceVer_exact r v hr htr hv hvreg res h
 
+/-- for operands that are not unions the constraint-level operations *are* the member-level ones proved above
+(`Version.union` first asks `other.allows(self)`, covered by `RC.absorb_exact`) -/
+theorem single_operands_reduce (a b : RC) (r : VRange) (v : Version) :
+    VC.intersect (.single a) (.single b) = RC.intersect a b ∧
+    VC.unionWith (.single (.rng r)) (.single b) = RC.union (.rng r) b ∧
+    VC.difference (.single (.rng r)) (.single b) = RC.difference (.rng r) b ∧
+    VC.difference (.single (.ver v)) (.single b) = RC.difference (.ver v) b ∧
+    VC.unionWith (.single (.ver v)) (.single b) =
+      (if b.allows v then .ok (.single b) else RC.union (.ver v) b) := by
+  refine ⟨rfl, rfl, rfl, ?_, ?_⟩
+  · simp only [VC.difference, VC.allows, RC.difference, RC.verDifference, bind, Except.bind, pure, Except.pure]
+    cases b.allows v <;> rfl
+  · simp only [VC.unionWith, VC.allows, bind, Except.bind, pure, Except.pure]
+
 /-! ## union level: the merge walk of `VersionUnion.intersect` -/
 
 /-- **the merge walk of `VersionUnion.intersect` is total and exact.**  For two lists of well-formed members,
